@@ -5,7 +5,7 @@ set -u
 N=$1; SRC=/tmp/mut/$N/MUTANT; WT=/tmp/vm/$N
 export GOFLAGS=-mod=mod GOPROXY=off GOSUMDB=off GOTOOLCHAIN=local PATH=/opt/veriftools/go1.26.8/bin:$PATH
 mkdir -p /tmp/vm; git -C /repo worktree remove --force $WT 2>/dev/null; rm -rf $WT
-git -C /repo worktree add --detach $WT HEAD >/dev/null 2>&1 || exit 2
+git -C /repo worktree add --detach $WT ${BASE:-HEAD} >/dev/null 2>&1 || exit 2
 cd $WT; mkdir MUTANT; cp -r $SRC/* MUTANT/
 DEMO=$(python3 -c "import json;print(json.load(open('MUTANT/meta.json'))['demo_cmd'].replace('/tmp/mut/$N','$WT'))")
 res() { echo "RESULT $N $1"; }
@@ -23,7 +23,7 @@ if [ $W -ne 0 ] && [ $O -eq 0 ]; then
   python3 - <<PY
 import json
 m=json.load(open('MUTANT/meta.json'))
-m['verified']={'by':'tools/verify_mutant.sh in a fresh worktree of /repo HEAD','base_commit':'$(git -C /repo rev-parse --short HEAD)','build':'ok','existing_suite_with_change':'pass','demo_with_change':'fails (exit $W)','demo_without_change':'passes'}
+m['verified']={'by':'tools/verify_mutant.sh in a fresh worktree of /repo HEAD','base_commit':'$(git -C /repo rev-parse --short ${BASE:-HEAD})','build':'ok','existing_suite_with_change':'pass','demo_with_change':'fails (exit $W)','demo_without_change':'passes'}
 json.dump(m,open('$D/meta.json','w'),indent=1)
 PY
   res "confirmed"
